@@ -1053,3 +1053,180 @@ Proof.
   - intros s [<-|[<-|[<-|[]]]]; eexists; eexists; (split; [vm_compute; reflexivity|vm_compute; reflexivity]).
   - vm_compute. left. reflexivity.
 Qed.
+
+(* ================================================================================================================== *)
+(* M2 of C14: identifiers unique within each file                                                                       *)
+
+Definition str_dec : forall a b : str, {a = b} + {a <> b} := list_eq_dec Z.eq_dec.
+Definition cnt (i : str) (l : list str) : nat := count_occ str_dec l i.
+
+Lemma ids_app : forall a b, ids (a ++ b) = ids a ++ ids b.
+Proof. intros. unfold ids. apply flat_map_app. Qed.
+Lemma cnt_app : forall i a b, cnt i (a ++ b) = (cnt i a + cnt i b)%nat.
+Proof. intros. unfold cnt. apply count_occ_app. Qed.
+Lemma ids_flat_map {A} : forall (f : A -> out) l, ids (flat_map f l) = flat_map (fun x => ids (f x)) l.
+Proof. intros f l. induction l as [|x l IH]; [reflexivity|]. cbn [flat_map]. rewrite ids_app, IH. reflexivity. Qed.
+Lemma cnt_flat_map {A} : forall i (f : A -> list str) l, cnt i (flat_map f l) = list_sum (map (fun x => cnt i (f x)) l).
+Proof. intros i f l. induction l as [|x l IH]; [reflexivity|]. cbn [flat_map map list_sum]. rewrite cnt_app, IH. reflexivity. Qed.
+Lemma list_sum_cons : forall x l, list_sum (x :: l) = (x + list_sum l)%nat.
+Proof. reflexivity. Qed.
+Lemma list_sum_le {A} : forall (f g : A -> nat) l, (forall x, In x l -> (f x <= g x)%nat) -> (list_sum (map f l) <= list_sum (map g l))%nat.
+Proof.
+  intros f g l. induction l as [|x l IH]; intros H; [apply Nat.le_refl|]. cbn [map]. rewrite !list_sum_cons.
+  apply Nat.add_le_mono; [apply H; left; reflexivity|apply IH; intros y Hy; apply H; right; exact Hy].
+Qed.
+Lemma list_sum_add {A} : forall (f g : A -> nat) l, list_sum (map (fun x => (f x + g x)%nat) l) = (list_sum (map f l) + list_sum (map g l))%nat.
+Proof. intros f g l. induction l as [|x l IH]; [reflexivity|]. cbn [map]. rewrite !list_sum_cons, IH. lia. Qed.
+Lemma list_sum_in {A} : forall (f : A -> nat) l x, In x l -> (f x <= list_sum (map f l))%nat.
+Proof. intros f l x. induction l as [|y l IH]; intros H; [destruct H|]. cbn [map]. rewrite list_sum_cons. destruct H as [->|H]; [lia|specialize (IH H); lia]. Qed.
+
+Section Ids.
+  Context (fmap : Z -> option str).
+  Context (tmpl : attrs -> out -> out) (layout : attrs -> out -> list (attrs * out) -> out) (shows : attrs -> bool).
+  Context (is_note : attrs -> bool) (pre lpre : attrs -> out).
+  (* a node template prints the identifiers of [pre a] and, if it shows its content, those of the content; the layout prints the
+     identifiers of the content and, per footnote, those of [lpre f] and of the footnote text; and a node's own templates print at most
+     the node's own identifier, at most once *)
+  Definition ids_tmpl : Prop := forall a s, ids (tmpl a s) = ids (pre a) ++ (if shows a then ids s else []).
+  Definition ids_layout : Prop := forall a v fns, ids (layout a v fns) = ids v ++ flat_map (fun fn => ids (lpre (fst fn)) ++ ids (snd fn)) fns.
+  Definition opt_list (o : option str) : list str := match o with Some i => [i] | None => [] end.
+  Definition own_id_only : Prop :=
+    forall a i, (cnt i (ids (pre a)) + (if is_note a then cnt i (ids (lpre a)) else O) <= cnt i (opt_list (a_id a)))%nat.
+  Context (H1 : ids_tmpl) (H2 : ids_layout) (H3 : own_id_only) (H4 : forall a, is_note a = true -> shows a = false).
+  Notation hasf := (has_file fmap).
+
+  (* how often the templates of the nodes of a subtree can print the identifier i *)
+  Fixpoint PL (i : str) (n : node) : nat :=
+    match n with
+    | T _ => O
+    | E a cs => (cnt i (ids (pre a)) + (if is_note a then cnt i (ids (lpre a)) else O) + list_sum (map (PL i) cs))%nat
+    end.
+  Definition SS (i : str) (n : node) : nat := cnt i (ids (str_node fmap tmpl n)).
+  Definition N1 (i : str) (p : attrs * list node) : nat := (cnt i (ids (lpre (fst p))) + cnt i (ids (str_kids fmap tmpl (fst p) (snd p))))%nat.
+  Definition NS (i : str) (n : node) : nat := list_sum (map (N1 i) (own_notes fmap is_note n)).
+
+  Lemma str_kids_cnt : forall i a cs, a_isdoc a = false -> cnt i (ids (str_kids fmap tmpl a cs)) = list_sum (map (SS i) cs).
+  Proof.
+    intros i a cs ND. unfold str_kids. rewrite ids_flat_map, cnt_flat_map. f_equal. apply map_ext. intros c. rewrite vis_nodoc by exact ND. reflexivity.
+  Qed.
+
+  Lemma NS_kids : forall i cs, list_sum (map (N1 i) (flat_map (own_notes fmap is_note) cs)) = list_sum (map (NS i) cs).
+  Proof.
+    intros i cs. induction cs as [|c cs IH]; [reflexivity|]. cbn [flat_map map]. rewrite map_app, list_sum_app, list_sum_cons, IH. reflexivity.
+  Qed.
+
+  Lemma list_sum_nil : list_sum [] = O.
+  Proof. reflexivity. Qed.
+
+  Lemma ids_inv : forall i n, (forall a, In a (elements n) -> a_isdoc a = false) -> (SS i n + NS i n <= PL i n)%nat.
+  Proof.
+    intros i. induction n as [w|a cs IH] using node_ind2; intros ND; [cbn; lia|].
+    assert (ND0 : a_isdoc a = false) by (apply ND; cbn; left; reflexivity).
+    assert (IHs : (list_sum (map (SS i) cs) + list_sum (map (NS i) cs) <= list_sum (map (PL i) cs))%nat).
+    { rewrite <- list_sum_add. apply list_sum_le. intros c Hc. rewrite Forall_forall in IH. apply (IH _ Hc).
+      intros b Hb. apply ND. cbn. right. apply in_flat_map. exists c. split; assumption. }
+    unfold SS, NS. cbn [str_node own_notes PL]. rewrite map_app, list_sum_app.
+    assert (K : cnt i (ids (flat_map (fun c => if vis a c then str_node fmap tmpl c else []) cs)) = list_sum (map (SS i) cs)) by (apply (str_kids_cnt i a cs ND0)).
+    assert (NK : (list_sum (map (N1 i) (if is_owner fmap a then [] else flat_map (own_notes fmap is_note) cs)) <= list_sum (map (NS i) cs))%nat).
+    { destruct (is_owner fmap a); [cbn; lia|]. rewrite NS_kids. apply Nat.le_refl. }
+    pose proof (H3 a i) as Hown.
+    assert (KK : cnt i (ids (str_kids fmap tmpl a cs)) = list_sum (map (SS i) cs)) by (apply (str_kids_cnt i a cs ND0)).
+    assert (C0 : cnt i [] = O) by reflexivity.
+    assert (NH : N1 i (a, cs) = (cnt i (ids (lpre a)) + list_sum (map (SS i) cs))%nat) by (unfold N1; cbn [fst snd]; rewrite KK; reflexivity).
+    destruct (hasf a) eqn:EF.
+    - change (ids []) with (@nil str). rewrite C0.
+      destruct (is_note a) eqn:EN; cbn [map]; rewrite ?list_sum_cons, ?list_sum_nil, ?NH; lia.
+    - rewrite H1, cnt_app. destruct (is_note a) eqn:EN.
+      + rewrite (H4 a EN). rewrite C0. cbn [map]. rewrite ?list_sum_cons, ?list_sum_nil, ?NH. lia.
+      + cbn [map]. rewrite ?list_sum_nil. destruct (shows a); [rewrite K|rewrite C0]; lia.
+  Qed.
+
+  Lemma PL_mono : forall i n ch0 ch a cs, In (ch, a, cs) (elems_ctx ch0 n) -> (PL i (E a cs) <= PL i n)%nat.
+  Proof.
+    intros i. induction n as [w|a0 cs0 IH] using node_ind2; intros ch0 ch a cs H; [destruct H|]. cbn [elems_ctx] in H. destruct H as [H|H].
+    - inversion H; subst. apply Nat.le_refl.
+    - apply in_flat_map in H. destruct H as [c [Hc H]]. rewrite Forall_forall in IH. specialize (IH _ Hc _ _ _ _ H).
+      pose proof (list_sum_in (PL i) cs0 c Hc) as L. cbn [PL] in *. lia.
+  Qed.
+
+  Lemma PL_total : forall i n, (PL i n <= cnt i (flat_map (fun a => opt_list (a_id a)) (elements n)))%nat.
+  Proof.
+    intros i. induction n as [w|a cs IH] using node_ind2; [cbn; lia|]. cbn [PL elements flat_map]. rewrite cnt_app. pose proof (H3 a i) as Hown.
+    assert (L : (list_sum (map (PL i) cs) <= cnt i (flat_map (fun a => opt_list (a_id a)) (flat_map elements cs)))%nat).
+    { rewrite flat_map_flat_map, cnt_flat_map. apply list_sum_le. intros c Hc. rewrite Forall_forall in IH. exact (IH _ Hc). }
+    destruct (is_note a); lia.
+  Qed.
+
+  (* M2: in every document whose nodes have pairwise different identifiers, no identifier is printed twice into the file of a unit *)
+  Theorem ids_unique_in_file : forall doc fnotes ch a cs,
+    NoDup (sers doc) -> notes_listed is_note doc fnotes -> In (ch, a, cs) (elems_ctx [] doc) ->
+    (forall b, In b (elements (E a cs)) -> a_isdoc b = false) ->
+    NoDup (flat_map (fun b => opt_list (a_id b)) (elements doc)) ->
+    NoDup (ids (content fmap tmpl layout doc fnotes a cs)).
+  Proof.
+    intros doc fnotes ch a cs ND HF Hin NDoc NI. apply (NoDup_count_occ str_dec). intro i. fold (cnt i (ids (content fmap tmpl layout doc fnotes a cs))).
+    assert (ND0 : a_isdoc a = false) by (apply NDoc; cbn; left; reflexivity).
+    assert (B : (cnt i (ids (content fmap tmpl layout doc fnotes a cs)) <= PL i (E a cs))%nat).
+    { unfold content. rewrite H2, cnt_app, H1, cnt_app. rewrite (footnotes_struct fmap tmpl is_note doc fnotes ch a cs ND HF Hin).
+      assert (IHs : (list_sum (map (SS i) cs) + list_sum (map (NS i) cs) <= list_sum (map (PL i) cs))%nat).
+      { rewrite <- list_sum_add. apply list_sum_le. intros c Hc. apply ids_inv. intros b Hb. apply NDoc. cbn. right. apply in_flat_map. exists c. split; assumption. }
+      assert (F : (cnt i (flat_map (fun fn => ids (lpre (fst fn)) ++ ids (snd fn))
+                            (if is_owner fmap a then note_strs fmap tmpl (flat_map (own_notes fmap is_note) cs) else [])) <= list_sum (map (NS i) cs))%nat).
+      { destruct (is_owner fmap a); [|cbn; lia]. rewrite cnt_flat_map. unfold note_strs. rewrite map_map. rewrite <- NS_kids.
+        apply Nat.eq_le_incl. f_equal. apply map_ext. intros p. cbn [fst snd]. rewrite cnt_app. reflexivity. }
+      pose proof (H3 a i) as Hown. cbn [PL].
+      assert (S1 : (cnt i (if shows a then ids (str_kids fmap tmpl a cs) else []) <= list_sum (map (SS i) cs))%nat).
+      { destruct (shows a); [rewrite (str_kids_cnt i a cs ND0); apply Nat.le_refl|cbn; lia]. }
+      destruct (is_note a); lia. }
+    pose proof (PL_mono i doc [] ch a cs Hin) as M. pose proof (PL_total i doc) as TT.
+    pose proof (proj1 (NoDup_count_occ str_dec _) NI i) as C1. unfold cnt in *. lia.
+  Qed.
+End Ids.
+
+Lemma std_ids_tmpl : forall e, ids_tmpl (std_tmpl e) std_shows (std_pre e).
+Proof. intros e a s. rewrite std_tmpl_split, ids_app. destruct (std_shows a); reflexivity. Qed.
+Lemma std_ids_layout : ids_layout std_layout std_lpre.
+Proof.
+  intros a v fns. unfold std_layout. rewrite ids_app. f_equal. rewrite ids_flat_map. apply flat_map_ext_in. intros fn _. apply ids_app.
+Qed.
+
+Lemma ids_link_to : forall e l, ids (flat_map (link_to e) l) = [].
+Proof. intros e l. rewrite ids_flat_map. apply flat_map_nil_all. intros t _. unfold link_to. destruct (e_url e t); reflexivity. Qed.
+
+Lemma ids_opt_id : forall a, ids (opt_id a) = opt_list (a_id a).
+Proof. intros a. unfold opt_id, opt_list. destruct (a_id a); reflexivity. Qed.
+
+Lemma std_own_id_only : forall e, e_item_ids e = false -> own_id_only std_note (std_pre e) std_lpre.
+Proof.
+  intros e HI a i. unfold std_note, std_lpre, std_pre, std_tmpl. rewrite ids_opt_id.
+  destruct (a_kind a =? K_SECTION) eqn:E1.
+  { apply Z.eqb_eq in E1. rewrite E1. cbn. rewrite !ids_app, ids_opt_id. cbn. rewrite app_nil_r. lia. }
+  destruct (a_kind a =? K_FOOTNOTE) eqn:E2; [destruct (a_id a); cbn; lia|].
+  destruct (a_kind a =? K_REF) eqn:E3; [destruct (a_resolved a); [rewrite ids_link_to|]; cbn; lia|].
+  destruct (a_kind a =? K_PAGEREF) eqn:E4.
+  { destruct (a_resolved a); [|cbn; lia]. rewrite ids_flat_map, flat_map_nil_all; [cbn; lia|]. intros t _. destruct (e_url e t); reflexivity. }
+  destruct (a_kind a =? K_ANCHOR) eqn:E5; [rewrite ids_opt_id; lia|].
+  destruct (a_kind a =? K_CITE) eqn:E6; [rewrite ids_link_to; cbn; lia|].
+  destruct (a_kind a =? K_BIBITEM) eqn:E7; [rewrite app_nil_r, ids_opt_id; lia|].
+  destruct (a_kind a =? K_CAPTION) eqn:E8; [rewrite app_nil_r, ids_opt_id; lia|].
+  destruct (a_kind a =? K_INDEXPAGE) eqn:E9; [rewrite app_nil_r, ids_app, ids_opt_id, ids_link_to, app_nil_r; lia|].
+  destruct (a_kind a =? K_HIDDEN) eqn:E10; [cbn; lia|].
+  destruct (a_kind a =? K_ITEM) eqn:E11; [rewrite HI; cbn; lia|cbn; lia].
+Qed.
+
+(* the identifier generator (Macro.id / idgen) does not look at the labels of the document: a label that reads like a generated
+   identifier can equal the identifier generated for another node of the same file.  On the faithful Model with the shipped templates:
+   \section{t}\label{f} whose footnote gets the generated identifier "f": the heading and the footnote entry carry the same id. *)
+Definition ex_sec1_clash : attrs := mkA 2 K_SECTION 1 false (Some [102]) false (Some [116]) (Some [49]) [115] [] true.
+Definition ex_doc_clash : node := E ex_root [E ex_docenv [T 1; E ex_sec1_clash [T 2; E ex_fn [T 3]; T 4]; E ex_sec2 [T 5]]].
+
+Lemma ids_unique_refuted :
+  let fm := the_fmap ex_files in
+  let e := the_env ex_doc_clash ex_cfg ex_files false in
+  NoDup (sers ex_doc_clash) /\ notes_listed std_note ex_doc_clash [3] /\
+  In ([ex_docenv; ex_root], ex_sec1_clash, [T 2; E ex_fn [T 3]; T 4]) (elems_ctx [] ex_doc_clash) /\
+  ~ NoDup (ids (content fm (std_tmpl e) std_layout ex_doc_clash [3] ex_sec1_clash [T 2; E ex_fn [T 3]; T 4])).
+Proof.
+  cbv zeta. split; [vm_compute; repeat constructor; cbn; intuition discriminate|]. split; [vm_compute; reflexivity|].
+  split; [vm_compute; right; right; left; reflexivity|]. vm_compute. intro H. inversion H as [|x l Hn Hd]; subst. apply Hn. left. reflexivity.
+Qed.
